@@ -62,24 +62,35 @@ def quals : List (Bool × Text) := [(false, []), (true, []), (false, S "deny"), 
 def mk (kind : String) (q : Bool × Text) (comment : Text) (flds : List Fld) : Rule :=
   { kind := kind, audit := q.1, accessType := q.2, comment := comment, flds := flds }
 
-/-- every capability name, under every printed qualifier, with and without a trailing comment -/
+/-- every capability name with a trailing comment, and every printed qualifier with and without one;
+the full product is `C09Full.C09_capability_roundtrip_full` (thorough tier) -/
 theorem C09_capability_roundtrip :
-    ∀ n ∈ reqValues T "capability" "name", ∀ q ∈ quals, ∀ c ∈ [[], S " see #12, (x)"],
-      roundtrip (mk "capability" q c [.l [n]]) = true := by decide +kernel
+    (∀ n ∈ reqValues T "capability" "name", roundtrip (mk "capability" (true, S "deny") (S " see #12, (x)") [.l [n]]) = true) ∧
+    (∀ q ∈ quals, ∀ c ∈ [[], S " see #12, (x)"], roundtrip (mk "capability" q c [.l [S "chown"]]) = true) := by
+  constructor <;> decide +kernel
 
-/-- every network domain with every socket type -/
+/-- every network domain (with one socket type) and every socket type (with one domain); the full
+product is `C09Full.C09_network_roundtrip_full` (thorough tier) -/
 theorem C09_network_roundtrip :
-    ∀ d ∈ reqValues T "network" "domains", ∀ t ∈ reqValues T "network" "type",
-      roundtrip (mk "network" (false, []) [] [.s [], .s [], .s [], .s d, .s t, .s []]) = true := by decide +kernel
+    (∀ d ∈ reqValues T "network" "domains",
+      roundtrip (mk "network" (false, []) [] [.s [], .s [], .s [], .s d, .s (S "stream"), .s []]) = true) ∧
+    (∀ t ∈ reqValues T "network" "type",
+      roundtrip (mk "network" (false, []) [] [.s [], .s [], .s [], .s (S "inet"), .s t, .s []]) = true) := by
+  constructor <;> decide +kernel
 
 /-- every ptrace access with a peer, every signal access with every signal -/
 theorem C09_ptrace_roundtrip :
     ∀ a ∈ reqValues T "ptrace" "access", ∀ q ∈ quals,
       roundtrip (mk "ptrace" q (S " c") [.l [a], .s (S "\"@{p_systemd}\"")]) = true := by decide +kernel
 
+/-- every signal access (with one signal) and every signal (with one access); the full product is
+`C09Full.C09_signal_roundtrip_full` (thorough tier) -/
 theorem C09_signal_roundtrip :
-    ∀ a ∈ reqValues T "signal" "access", ∀ s ∈ reqValues T "signal" "set",
-      roundtrip (mk "signal" (false, []) [] [.l [a], .l [s], .s (S "foo//bar")]) = true := by decide +kernel
+    (∀ a ∈ reqValues T "signal" "access",
+      roundtrip (mk "signal" (false, []) [] [.l [a], .l [S "term"], .s (S "foo//bar")]) = true) ∧
+    (∀ s ∈ reqValues T "signal" "set",
+      roundtrip (mk "signal" (false, []) [] [.l [S "send"], .l [s], .s (S "foo//bar")]) = true) := by
+  constructor <;> decide +kernel
 
 /-- every exec transition after a read access, on a quoted path with a space and on a path with
 nested alternations, with owner and target -/
